@@ -1,5 +1,7 @@
 import ICS.Driver.Common
 import ICS.Model.Provider
+import ICS.Spec.Prov
+import ICS.Spec.Epoch
 namespace ICS.Driver
 open ICS ICS.Provider ICS.Epoch
 
@@ -165,6 +167,7 @@ structure ProvImpl where
   cs    : List (String × Fields) := []
   revs  : Fields := []        -- chain id ↦ revision (environment fact printed by the harness)
   conns : Fields := []        -- connection id ↦ "client|chain|height"
+  chans : Fields := []        -- channel id ↦ connection hops
   unb   : Int := 0
   maxVals : Nat := 100
 
@@ -183,7 +186,8 @@ def ProvImpl.absorb (p : ProvImpl) (obs : List Line) : ProvImpl :=
       else { p with cs := p.cs ++ [(c, f)] }
     else if l.name == "env" then
       { p with revs := p.revs.setAll (l.kv.filterMap fun kv => if kv.1.startsWith "rev." then some ((kv.1.drop 4).toString, kv.2) else none),
-               conns := p.conns.setAll (l.kv.filterMap fun kv => if kv.1.startsWith "conn." then some ((kv.1.drop 5).toString, kv.2) else none) }
+               conns := p.conns.setAll (l.kv.filterMap fun kv => if kv.1.startsWith "conn." then some ((kv.1.drop 5).toString, kv.2) else none),
+               chans := p.chans.setAll (l.kv.filterMap fun kv => if kv.1.startsWith "chan." then some ((kv.1.drop 5).toString, kv.2) else none) }
     else p) p
 
 def ProvImpl.toState (p : ProvImpl) : State :=
@@ -257,7 +261,7 @@ def launchEnvOf (impl : ProvImpl) (s : State) (c : CId) : LaunchEnv :=
 
 /-- one step of a provider stream: model prediction from the implementation's previous state,
     compared with the implementation's next state -/
-def stepProv (d : ProvDrv) (a : Acc) (s : Step) : ProvDrv × Acc :=
+def stepProvCore (d : ProvDrv) (a : Acc) (s : Step) : ProvDrv × Acc :=
   let before := d.impl
   -- environment facts printed before the operation executes belong to the pre-state
   let before := before.absorb (s.obs.filter (·.name == "env"))
@@ -312,6 +316,120 @@ def stepProv (d : ProvDrv) (a : Acc) (s : Step) : ProvDrv × Acc :=
     let a := if (st3.consumers.filter fun x => x.phase == .deleted && (st.get x.id).phase != .deleted).isEmpty then a else a.tag "deleted"
     let a := if st.spawnQ != st3.spawnQ || st.removeQ != st3.removeQ || st.infrQ != st3.infrQ then { a with nontrivial := a.nontrivial + 1 } else a
     ({ impl := after }, compareState a s.lineNo st3 after lifecycleFields lifecycleGlobals)
+  | "chantry" | "chaninit" =>
+    let connOf := fun (h : String) =>
+      match (before.conns.get h).splitOn "|" with
+      | [cl, ch, _] => some ({ client := cl, isTM := ch != "!" } : ConnInfo)
+      | _ => none
+    let okM := if s.op.name == "chaninit" then chanOpenInit else
+      chanOpenTry st (s.op.get "order" == "ORDERED") (s.op.get "port") (s.op.get "cport") (s.op.get "ver")
+        (splitNE (s.op.get "hops") ",") connOf
+    let a := (a.tag (if okM then "chantry-ok" else "chantry-rejected")).cmp s.lineNo "chantry.res" (if okM then "ok" else "err") res
+    let a := if okM then { a with nontrivial := a.nontrivial + 1 } else a
+    ({ impl := after }, compareState a s.lineNo st after lifecycleFields lifecycleGlobals)
+  | "chanconfirm" =>
+    let connOf := fun (h : String) =>
+      match (before.conns.get h).splitOn "|" with
+      | [cl, ch, _] => some ({ client := cl, isTM := ch != "!" } : ConnInfo)
+      | _ => none
+    let hops := if before.chans.any (·.1 == s.op.get "ch") then some (splitNE (before.chans.get (s.op.get "ch")) "+") else none
+    match chanOpenConfirm st (s.op.get "ch") hops connOf with
+    | none => ({ impl := after }, (a.tag "chanconfirm-rejected").cmp s.lineNo "chanconfirm.res" "err" res)
+    | some st' =>
+      let a := (a.tag "chanconfirm-ok").cmp s.lineNo "chanconfirm.res" "ok" res
+      let a := { a with nontrivial := a.nontrivial + 1 }
+      ({ impl := after }, if res == "ok" then compareState a s.lineNo st' after lifecycleFields lifecycleGlobals else a)
+  | "end" =>
+    let g : GlobalVS := { lastProv := parseCVals (before.g.get "lastprov"), vsc2h := parsePairs (before.g.get "vsc2h") }
+    match endBlock st g with
+    | none => ({ impl := after }, a.cmp s.lineNo "end.res" "err" res)
+    | some (st', g', upd, sent) =>
+      let a := a.cmp s.lineNo "end.res" "ok" res
+      let a := a.cmp s.lineNo "end.valupd" (renderUpd upd ",") ((s.ob "r").get "valupd")
+      let a := a.cmp s.lineNo "end.lastprov" (renderCVals (isort (fun (p q : CVal) => decide (p.v ≤ q.v)) g'.lastProv))
+        (renderCVals (isort (fun (p q : CVal) => decide (p.v ≤ q.v)) (parseCVals (after.g.get "lastprov"))))
+      let a := a.cmp s.lineNo "end.vsc2h" (fmtPairs g'.vsc2h) (after.g.get "vsc2h")
+      let a := a.cmp s.lineNo "end.vscid" (toString st'.vscId) (after.g.get "vscid")
+      let sentStr := ";".intercalate (sent.map fun e =>
+        s!"{((st'.get e.1).channel.getD "-")}/{e.2.id}/{renderUpd e.2.updates "+"}/{"+".intercalate (e.2.acks.map toString)}")
+      let implSent := ";".intercalate ((splitNE ((s.ob "r").get "sent") ";").map fun t =>
+        match t.splitOn "/" with
+        | [ch, _, id, u, ak] => s!"{ch}/{id}/{u}/{ak}"
+        | _ => t)
+      let a := a.cmp s.lineNo "end.sent" sentStr implSent
+      let a := if st.height % st.epoch == 0 then { (a.tag "epoch") with nontrivial := a.nontrivial + 1 } else a
+      let a := after.cs.foldl (fun a e =>
+        let x := st'.get e.1
+        let a := a.cmp s.lineNo s!"c{e.1}.valset" (renderCVals (isort (fun (p q : CVal) => decide (p.v ≤ q.v)) x.valset))
+          (renderCVals (isort (fun (p q : CVal) => decide (p.v ≤ q.v)) (parseCVals (e.2.get "valset"))))
+        let a := a.cmp s.lineNo s!"c{e.1}.pend" (renderPend x.pend) (e.2.get "pend")
+        let a := a.cmp s.lineNo s!"c{e.1}.acks" (fmtNatList x.acks) (e.2.get "acks")
+        a) a
+      ({ impl := after }, compareState a s.lineNo st' after lifecycleFields lifecycleGlobals)
   | _ => ({ impl := after }, a)
+
+/-- the oracle's view of one consumer after an epoch / launch -/
+def viewOf (b : State) (f : Fields) (x : Consumer) : Spec.Epoch.View :=
+  let lists := (f.get "pslists").splitOn "|"
+  { stk := b.stk, bonded := b.bonded.take b.maxVals, m := b.m, ps := x.ps.getD {},
+    allow := parseNatList (lists.getD 0 ""), deny := parseNatList (lists.getD 1 ""), prio := parseNatList (lists.getD 2 ""),
+    optin := x.optin, minpow := x.minpow, ka := x.ka, valset := x.valset }
+
+/-- C02 / C03 / C04 on every validator set the implementation computed in this operation -/
+def epochSpecs (a : Acc) (lineNo : Nat) (op : Line) (b t : State) (after : ProvImpl) : Acc :=
+  let isEpoch := op.name == "end" && b.height % b.epoch == 0
+  after.cs.foldl (fun a e =>
+    let x := t.get e.1
+    let xb := b.get e.1
+    let computed := (isEpoch && xb.phase == .launched && xb.client.isSome) ||
+                    (op.name == "begin" && x.phase == .launched && xb.phase != .launched)
+    if !computed then a
+    else
+      let w := viewOf b e.2 x
+      let a := a.tag "valset-computed"
+      let d := s!"consumer={e.1} valset={renderCVals x.valset} bonded={fmtNatList w.bonded} m={w.m}"
+      let a := a.spec lineNo "C02.sound" (Spec.Epoch.c02Sound w && Spec.Epoch.c02NoDup w) d
+      let a := a.spec lineNo "C02.active-set" (Spec.Epoch.c02Active w) d
+      let a := a.spec lineNo "C02.power" (Spec.Epoch.c02Power w) d
+      let a := a.spec lineNo "C02.key" (Spec.Epoch.c02Key w) d
+      let a := a.spec lineNo "C02.complete" (Spec.Epoch.c02Complete w) d
+      let a := a.spec lineNo "C03.threshold" (Spec.Epoch.c03Threshold w) d
+      let a := a.spec lineNo "C03.included" (Spec.Epoch.c03Included w) d
+      let a := a.spec lineNo "C04.set-cap" (Spec.Epoch.c04SetCap w) d
+      a.spec lineNo "C04.power-cap" (Spec.Epoch.c04PowerCap w) d) a
+
+
+/-- state invariants and transition predicates of Spec/Prov.lean on the implementation's states -/
+def provInvariants (a : Acc) (lineNo : Nat) (op : Line) (ok : Bool) (b t : State) : Acc :=
+  let target := op.get "c"
+  let perConsumer := ["update", "remove", "optin", "optout", "assign", "commission"].contains op.name
+  let a := a.spec lineNo "C10.sched-inv" (Spec.Prov.schedInv t)
+  let a := a.spec lineNo "C10.phase-edges" (Spec.Prov.phaseEdges b t)
+  let a := a.spec lineNo "C10.ids" (Spec.Prov.idsOK t && Spec.Prov.idsMonotone b t)
+  let a := a.spec lineNo "C10.launch-artifacts" (Spec.Prov.launchArtifacts b t)
+  let a := if op.name == "begin" then a.spec lineNo "C10.launch-when-due" (Spec.Prov.launchWhenDue b t 200) else a
+  let a := a.spec lineNo "C11.stop-inv" (Spec.Prov.stopInv t)
+  let a := if op.name == "begin" then a.spec lineNo "C11.removal-timing" (Spec.Prov.removalTiming b t 200) else a
+  let a := if op.name == "begin" || op.name == "end" then a.spec lineNo "C11.stopped-kept" (Spec.Prov.stoppedKept b t) else a
+  let a := a.spec lineNo "C11.no-updates-unless-launched" (Spec.Prov.noUpdatesUnlessLaunched b t)
+  let a := a.spec lineNo "C14.topn-owner" (Spec.Prov.topNInv t)
+  let a := a.spec lineNo "C14.owner-change" (Spec.Prov.ownerChange b t op.name (op.get "s") target ok)
+  let a := a.spec lineNo "C17.binding-inv" (Spec.Prov.bindingInv t)
+  let a := a.spec lineNo "C20.infr-inv" (Spec.Prov.infrInv t)
+  let a := a.spec lineNo "C20.infr-change" (Spec.Prov.infrChange b t op.name)
+  let a := if perConsumer then a.spec lineNo "C13.others-untouched" (Spec.Prov.othersUntouched b t target) else a
+  let a := if op.name == "create" then a.spec lineNo "C13.others-untouched" (Spec.Prov.othersUntouched b t ((s!"{b.nextId}"))) else a
+  a.spec lineNo "C05.key-inv" (Spec.Prov.keyInv t)
+
+def stepProv (d : ProvDrv) (a : Acc) (s : Step) : ProvDrv × Acc :=
+  let before := d.impl.absorb (s.obs.filter (·.name == "env"))
+  let r := stepProvCore d a s
+  let ok := (s.ob "r").get "res" == "ok"
+  if s.op.name == "init" then r
+  else
+    let b := before.toState
+    let t := r.1.impl.toState
+    let a := provInvariants r.2 s.lineNo s.op ok b t
+    (r.1, if ok then epochSpecs a s.lineNo s.op b t r.1.impl else a)
 
 end ICS.Driver
